@@ -129,6 +129,26 @@ impl<'a> Visitor for Enumerate<'a> {
             }
         }
         let n_powi = sweep_points::<F, D>(d, &l, &jobs, 2, &c, &exec_generic::<F, D>, self.stats);
+        // bases +-1 are exact in every float width: the real part must be exactly (+-1)^n (the
+        // rounding allowance of powi, which grows with |n|, must not hide a wrong parity)
+        for n in int_exponents(self.mode) {
+            for b in [-1.0f64, 1.0] {
+                let p = few_assignments::<F>(&l, b, 1, 0).remove(0);
+                let x = D::build(d, &p);
+                self.stats.evaluations += 1;
+                self.stats.transitions += 1;
+                let want = if b < 0.0 && n % 2 != 0 { -1.0 } else { 1.0 };
+                match guarded(|| x.powi(n).re()) {
+                    Ok(r) if r.to64() == want => {}
+                    Ok(r) => self.stats.violation(Violation {
+                        sig: format!("powi-parity {} {}", l.type_name, if n.unsigned_abs() > (1 << 24) { "n>2^24" } else { "n<=2^24" }),
+                        case: json!({"type": l.type_name, "base": b, "n": n}),
+                        what: format!("({b})^{n} has real part {:e}, exact value {want}", r.to64()),
+                    }),
+                    Err(m) => self.stats.violation(Violation { sig: format!("powi-parity {} panic", l.type_name), case: json!({"type": l.type_name, "base": b, "n": n}), what: format!("panicked: {m}") }),
+                }
+            }
+        }
         // ---- powf
         let mut jobs = Vec::new();
         for p in powf_exponents::<F>() {
